@@ -446,4 +446,116 @@ theorem linv_run (sched : List Nat) : ∀ (s : St) (k : Nat), LInv s k → ∃ k
     obtain ⟨k1, h1⟩ := linv_step s w k h
     exact ih _ k1 h1
 
+/-! #### the latch shared with the forwarders -/
+
+/-- a session message written while the latch was set -/
+def isLatched (m : Nat × Bool) : Bool := m.1 = 0 && m.2
+
+theorem quiet_append_session (x : Nat × Bool) (hx : x.1 = 0) : ∀ l : List (Nat × Bool),
+    quietAfterLatched l = true → quietAfterLatched (l ++ [x]) = true := by
+  intro l
+  induction l with
+  | nil => intro _; simp [quietAfterLatched]
+  | cons m r ih =>
+    intro h
+    obtain ⟨w, b⟩ := m
+    simp only [List.cons_append, quietAfterLatched] at h ⊢
+    split
+    · rename_i hc
+      rw [if_pos hc] at h
+      simp only [List.all_append, h, List.all_cons, List.all_nil, Bool.and_true, Bool.true_and]
+      simpa using hx
+    · rename_i hc
+      rw [if_neg hc] at h
+      exact ih h
+
+theorem quiet_append_unlatched (x : Nat × Bool) : ∀ l : List (Nat × Bool),
+    (∀ m ∈ l, isLatched m = false) → quietAfterLatched (l ++ [x]) = true := by
+  intro l
+  induction l with
+  | nil => intro _; simp [quietAfterLatched]
+  | cons m r ih =>
+    intro h
+    obtain ⟨w, b⟩ := m
+    have hm : isLatched (w, b) = false := h (w, b) (List.mem_cons_self ..)
+    have hr : ∀ m ∈ r, isLatched m = false := fun m hm => h m (List.mem_cons_of_mem _ hm)
+    simp only [List.cons_append, quietAfterLatched]
+    have hc : ¬ ((decide (w = 0) && b) = true) := by simpa [isLatched] using hm
+    rw [if_neg hc]
+    exact ih hr
+
+/-- invariant, for EVERY interleaving: the wire is quiet after a latched session message, and once there
+is one the latch is set and no forwarder is about to write -/
+def QInv (s : LSt) : Prop :=
+  quietAfterLatched s.wire = true ∧
+    ((∃ m ∈ s.wire, isLatched m = true) →
+      s.latch = true ∧ ∀ v go, s.holder = some (v, go) → go = true → v = 0)
+
+theorem qinv_init : QInv {} := by
+  refine ⟨rfl, ?_⟩
+  rintro ⟨m, hm, _⟩
+  cases hm
+
+theorem qinv_step (s : LSt) (a : LAct) (h : QInv s) : QInv (lstep s a) := by
+  obtain ⟨hq, hj⟩ := h
+  cases a with
+  | setLatch =>
+    refine ⟨hq, fun hex => ⟨rfl, (hj hex).2⟩⟩
+  | lock w =>
+    unfold lstep
+    cases hh : s.holder with
+    | some p => simp only; exact ⟨hq, fun hex => hj hex⟩
+    | none =>
+      simp only
+      refine ⟨hq, fun hex => ⟨(hj hex).1, ?_⟩⟩
+      intro v go hv hgo
+      have hl := (hj hex).1
+      simp only [Option.some.injEq, Prod.mk.injEq] at hv
+      obtain ⟨rfl, rfl⟩ := hv
+      simpa [hl] using hgo
+  | write w =>
+    unfold lstep
+    cases hh : s.holder with
+    | none => simp only; exact ⟨hq, fun hex => hj hex⟩
+    | some p =>
+      obtain ⟨v, go⟩ := p
+      simp only
+      by_cases hv : v = w
+      · rw [if_pos hv]
+        cases go with
+        | false =>
+          refine ⟨hq, fun hex => ⟨(hj hex).1, ?_⟩⟩
+          intro v' go' hv'
+          cases hv'
+        | true =>
+          simp only [if_true]
+          by_cases hex : ∃ m ∈ s.wire, isLatched m = true
+          · have hw0 : w = 0 := by rw [← hv]; exact (hj hex).2 v true hh rfl
+            refine ⟨quiet_append_session _ (by simpa using hw0) _ hq, fun _ => ⟨(hj hex).1, ?_⟩⟩
+            intro v' go' hv'
+            cases hv'
+          · have hun : ∀ m ∈ s.wire, isLatched m = false := by
+              intro m hm
+              cases hl : isLatched m with
+              | false => rfl
+              | true => exact absurd ⟨m, hm, hl⟩ hex
+            refine ⟨quiet_append_unlatched _ _ hun, ?_⟩
+            rintro ⟨m, hm, hml⟩
+            refine ⟨?_, ?_⟩
+            · rcases List.mem_append.mp hm with hm | hm
+              · rw [hun m hm] at hml; cases hml
+              · simp only [List.mem_singleton] at hm
+                subst hm
+                simp only [isLatched, Bool.and_eq_true, decide_eq_true_eq] at hml
+                exact hml.2.2
+            · intro v' go' hv'
+              cases hv'
+      · rw [if_neg hv]
+        exact ⟨hq, fun hex => hj hex⟩
+
+theorem qinv_run (acts : List LAct) : ∀ s, QInv s → QInv (acts.foldl lstep s) := by
+  induction acts with
+  | nil => intro s h; exact h
+  | cons a r ih => intro s h; exact ih _ (qinv_step s a h)
+
 end BsVerif.Dap.Writer
